@@ -371,7 +371,7 @@ def judge(stats, report, spec):
     if got[0] == 'val' and spec.get('vartext'):
         # the same expression with the operand held in a variable (the expression compiler only sees variables)
         try:
-            with core.case_timeout(10):
+            with core.case_timeout(3):
                 k(spec['vartext'][0])
                 got2 = ('val', to_canon(k(spec['vartext'][1])))
         except core.CaseTimeout:
@@ -453,6 +453,7 @@ def build(b):
         v = MONADIC[vi]
         fn = x_iterate if adv == ':*' else x_scan_iterating
         return dict(adverb=adv, verbkind=v[0] + ':' + v[1], operands=[a], text=str(n) + v[1] + adv + P(a), build=b,
+                    vartext=('cnt::0+%d' % n, 'cnt' + (' ' if v[1][0].isalnum() else '') + v[1] + adv + P(a)),        # the count as a computed value
                     applications=n, expand=lambda: fn(v, n, a))
     if kind == 'conv':
         _, adv, ci, a = b
